@@ -332,6 +332,8 @@ def run_stats(ctx, n_cases):
                 ctx.impl_violation("first-noise-params", "chi2 noise on a fresh frame records %r, expected (%r, %r)" % (r["stats"], m, math.sqrt(var)), c)
         else:
             s = fh(a["s"])
+            if c.get("obs") and not c.get("share"):
+                m = max(m, s)          # independently sampled parameters: the mean is raised to at least the deviation (documented)
             if a["type"] == "gauss":
                 if abs(r["mean"] - m) > SIGMA * s / math.sqrt(n):
                     ctx.impl_violation("gauss-mean", "gaussian noise (%r, %r): sample mean %r over %d draws" % (m, s, r["mean"], n), c)
